@@ -224,6 +224,7 @@ def k5_run(carve):
     eng = sqa.create_engine("sqlite://")
     df.write_database("t", eng)
     n, bad = 0, []
+    by_backend = {}
 
     def norm(v):
         if isinstance(v, float):
@@ -247,6 +248,7 @@ def k5_run(carve):
                     except Exception as ex:  # noqa: BLE001
                         bad.append(f"[{be}] column {sname}.cast({tgt}) fails at export: {type(ex).__name__}: {str(ex)[:120]}")
                         continue
+                    by_backend.setdefault((sname, str(tgt)), {})[be] = [norm(x) for x in col_res]
                     for v, want in zip(vals, col_res):
                         try:
                             lit_res = (t >> pdt.mutate(r=pdt.lit(v).cast(tgt)) >> pdt.export(pdt.Polars()))["r"].to_list()
@@ -258,7 +260,13 @@ def k5_run(carve):
                         if any(norm(x) != norm(want) for x in lit_res):
                             bad.append(f"[{be}] lit({v!r}).cast({tgt}) = {lit_res[0]!r}, the column cast of the same value gives {want!r}")
                             break
-    return _enum_outcome("a cast of a literal operand gives the value of the cast of a column holding that value (6 source types x 7 targets x 3 values x 2 backends)", n, bad)
+    # the two backends agree on the value wherever the result is not a text rendering of a float / bool / datetime
+    for (sname, tname), d in by_backend.items():
+        if len(d) == 2 and not (tname.startswith("String") and sname in ("Float64", "Bool", "Datetime", "Date")):
+            n += 1
+            if d["polars"] != d["sqlite"]:
+                bad.append(f"column {sname}.cast({tname}): Polars gives {d['polars']}, SQLite gives {d['sqlite']}")
+    return _enum_outcome("a cast of a literal operand gives the value of the cast of a column holding that value, and Polars and SQLite agree on the values (6 source types x 7 targets x 3 values)", n, bad)
 
 
 def obligations(tier):
